@@ -39,7 +39,7 @@ def shards(tier, seed):
             out.append({'kind': 'enum', 'mode': mode, 'part': p, 'nparts': n, **BOUNDS[tier]})
     nr = 8 if tier == 'quick' else 16
     for p in range(nr):
-        out.append({'kind': 'random', 'part': p, 'n': 400 if tier == 'quick' else 12000})
+        out.append({'kind': 'random', 'part': p, 'first': p == 0, 'n': 400 if tier == 'quick' else 12000})
     return out
 
 
@@ -107,7 +107,13 @@ def run_shard(desc, ctx):
             check(mode, s, cls, ctx, fns)
         return
     rng = ctx.rng
-    extra = ['é', 'Ж', '\t', '\n', '\xa0', '%', ',', '~', '`', '<', '&', ';', '?', '|', '_', 'Z', '9']
+    if desc.get('first'):
+        for s in stretch.class_border_inputs(stretch.MARKUP_NUMBER_SLOTS):
+            check('markup', s, 'markup:class-border', ctx, fns)
+        for s in stretch.class_border_inputs(stretch.CSS_NUMBER_SLOTS):
+            check('css', s, 'css:class-border', ctx, fns)
+            check('cssval', s, 'css:class-border', ctx, fns)
+    extra = ['é', 'Ж', '\t', '\n', '\xa0', '%', ',', '~', '`', '<', '&', ';', '?', '|', '_', 'Z', '9'] + stretch.CLASS_BORDER_CHARS
     for i in range(desc['n']):
         for mode in MODES:
             alpha = (MARKUP_ALPHA if mode == 'markup' else CSS_ALPHA)
